@@ -64,10 +64,9 @@ Section Nodes7.
     intros Hc Ee Le.
     assert (Hown : own H q n = map (shift q) (own H [] n)).
     { unfold own. rewrite Ee. replace (Nat.ltb (length e) 32) with false by (symmetry; apply Nat.ltb_ge; exact Le).
-      cbn [andb map shift fst snd]. rewrite app_nil_r. reflexivity. }
+      cbn [andb map]. unfold shift. cbn [fst snd]. rewrite app_nil_r. reflexivity. }
     destruct (can_cases _ Hc) as [(k & v & -> & Hk)|[(k & cs & -> & Hk & Kne & Hcf)|(cs & ->)]].
-    - rewrite !nodes_of_short, map_app, <- Hown. f_equal. cbn [app].
-      apply (nodes_shift q (NValue v) k). destruct k; [destruct Hk|discriminate].
+    - rewrite !nodes_of_short, map_app, <- Hown. reflexivity.
     - rewrite !nodes_of_short, map_app, <- Hown. f_equal. cbn [app]. apply (nodes_shift q (NFull cs) k Kne).
     - rewrite !nodes_of_full, map_app, <- Hown. f_equal.
       assert (G : forall l i, go_nodes (nodes_of H) q i l = map (shift q) (go_nodes (nodes_of H) [] i l)).
